@@ -1,7 +1,7 @@
 (* lalrpop_util::state_machine::Parser (0.19.8) over the regenerated tables, with the lexer pulled lazily,
    and Parser::add_content around it. *)
 From Coq Require Import ZArith.
-From AidlV Require Export Model.Lexer Gen.LrTables Gen.ParseActions.
+From AidlV Require Export Model.Lexer Model.Wrappers Gen.LrTables Gen.ParseActions.
 
 (* ---- table access ---- *)
 Definition action_at (state : N) (col : nat) : Z :=
@@ -54,6 +54,10 @@ Definition next_tok (p : pst) : next_token :=
       | None => Stop p' (Failed (unrecognized p' (Some (s, text, e))))
       end
   end.
+
+(* the action functions: the regenerated table through the wrapper evaluator *)
+Definition action_fuel : nat := length gen_actions.
+Definition gen_action (n : N) : afun := eval_action gen_actions action_fuel n.
 
 (* ---- reduce ---- *)
 Definition production (idx : N) : nat * N * N * N := nth (N.to_nat idx) gen_productions (O, 0, 0, 3).
